@@ -11,6 +11,7 @@ import Driver.Ack
 import Driver.Mw
 import Driver.Dispatch
 import Driver.Life
+import Driver.Up
 /-
   Line-protocol driver: one request per line on stdin, one canonical answer per line on stdout.
   The same request lines are executed by the Go harness against the real implementation.
@@ -34,6 +35,7 @@ def step (line : String) : String :=
   | "mw" :: rest => mwLine rest
   | "ds" :: rest => dsLine toks.tail!
   | "lc" :: rest => lcLine toks.tail!
+  | "up" :: rest => upLine toks.tail!
   | "rc" :: rest => rcLine toks.tail!
   | _ => "bad-op"
 
